@@ -3571,7 +3571,8 @@ func UnmarshalPrefixSID(psid *api.PrefixSID) (*bgp.PathAttributePrefixSID, error
 
 func UnmarshalSubTLVs(stlvs map[uint32]*api.SRv6SubTLVs) (uint16, []bgp.PrefixSIDTLVInterface, error) {
 	p := make([]bgp.PrefixSIDTLVInterface, 0, len(stlvs))
-	l := uint16(0)
+	// The value of a SRv6 Service TLV starts with 1 byte of Reserved1, followed by the Sub TLVs
+	l := uint16(1)
 	// v.SubTlvs is a map by sub tlv type and the value is a slice of sub tlvs of the specific type
 	for t, tlv := range stlvs {
 		switch t {
@@ -3605,8 +3606,8 @@ func UnmarshalSubTLVs(stlvs map[uint32]*api.SRv6SubTLVs) (uint16, []bgp.PrefixSI
 				// SRv6 Information Sub TLV length consists 1 byte Resrved2, 16 bytes SID, 1 byte flags, 2 bytes Endpoint Behavior
 				// 1 byte Reserved3 and length of Sub Sub TLVs
 				info.Length = 1 + 16 + 1 + 2 + 1 + sstlvslength
-				// For total Prefix SID TLV length, adding 3 bytes of the TLV header + 1 byte of Reserved1
-				l += info.Length + 4
+				// For total Prefix SID TLV length, adding 3 bytes of the Sub TLV header
+				l += info.Length + 3
 				p = append(p, info)
 			}
 		default:
